@@ -523,8 +523,10 @@ def rule_world_calls(text, effectful):
     """append `w` to the argument list of every call whose callee name is in `effectful`."""
     c = Code(text)
     edits = []
+    qualified = {tuple(e.split("::")) for e in effectful if "::" in e}
     for k in range(len(c)):
-        if c.kind(k) == "id" and c.t(k) in effectful and c.t(k - 1) != "fn":
+        is_q = c.kind(k) == "id" and c.t(k - 1) == "::" and (c.t(k - 2), c.t(k)) in qualified
+        if c.kind(k) == "id" and (c.t(k) in effectful or is_q) and c.t(k - 1) != "fn":
             j = k + 1
             # turbofish
             if c.t(j) == "::" and c.t(j + 1) == "<":
@@ -611,5 +613,44 @@ def rule_dyn_cast(text):
                 rs = _method_call_receiver_start(c, k)
                 ex = c.text[c.pos(rs):c.pos(k)].strip()
                 return (c.pos(rs), c.end(j), "{ let __c: %s = %s; __c }" % (ty, ex))
+        return None
+    return rewrite(text, finder)
+
+
+def rule_fetch_update(text):
+    """R8-F: X.fetch_update(o1, o2, |p| B)  ->  { let p = X.vx_rmw_load(w); let __upd = B; X.vx_rmw_commit(p, __upd, w) }
+    (an atomic read-modify-write: the CAS retry loop is the library's, A10)"""
+    def finder(c):
+        for k in range(len(c)):
+            if c.seq(k, ".", "fetch_update", "("):
+                args = split_args(c, k + 2)
+                if len(args) != 3 or c.t(args[2][0]) != "|":
+                    raise Unsupported("fetch_update: expected (ordering, ordering, closure)")
+                a, b = args[2]
+                bar2 = a + 1
+                while c.t(bar2) != "|": bar2 += 1
+                pat = c.slice(a + 1, bar2).strip()
+                body = c.text[c.pos(bar2 + 1):c.pos(b)].strip().rstrip(",")
+                rs = _method_call_receiver_start(c, k)
+                recv = c.text[c.pos(rs):c.pos(k)].strip()
+                cl = c.close(k + 2)
+                return (c.pos(rs), c.end(cl),
+                        "{ let %s = %s.vx_rmw_load(w); let __upd = %s; %s.vx_rmw_commit(%s, __upd, w) }" % (pat, recv, body, recv, pat))
+        return None
+    return rewrite(text, finder)
+
+
+def rule_min_u128(text):
+    """`X.min(u64::MAX as u128)` on a u128 (Ord::min is outside Verus' std specs) -> vx_min_u128(X, u64::MAX as u128)"""
+    def finder(c):
+        for k in range(len(c)):
+            if c.seq(k, ".", "min", "("):
+                cl = c.close(k + 2)
+                arg = c.slice(k + 3, cl).strip()
+                if "u128" not in arg:
+                    continue
+                rs = _method_call_receiver_start(c, k)
+                recv = c.text[c.pos(rs):c.pos(k)].strip()
+                return (c.pos(rs), c.end(cl), "vx_min_u128(%s, %s)" % (recv, arg))
         return None
     return rewrite(text, finder)
